@@ -13,6 +13,8 @@ pub const GVAR: Tag4 = *b"gvar";
 pub const IFT: Tag4 = *b"IFT ";
 pub const IFTX: Tag4 = *b"IFTX";
 pub const HEAD: Tag4 = *b"head";
+pub const CFF: Tag4 = *b"CFF ";
+pub const CFF2: Tag4 = *b"CFF2";
 
 pub fn tag_str(t: &Tag4) -> String {
     String::from_utf8_lossy(t).to_string()
@@ -150,6 +152,57 @@ pub struct World {
     /// root mapping-table versions in the base font: IFT, IFTX
     pub roots: [Option<usize>; 2],
     pub patches: Vec<Patch>,
+    /// outline carrier: 0 = glyf/loca (+gvar), 1 = CFF, 2 = CFF2
+    #[serde(default)]
+    pub carrier: u8,
+    /// offSize of the charstrings INDEX in the base font (CFF carriers)
+    #[serde(default)]
+    pub cff_off_size0: u8,
+}
+
+/// Everything of a minimal CFF / CFF2 table that precedes the charstrings INDEX (which the IFT
+/// specification requires to be last).
+pub fn cff_prefix(carrier: u8) -> Vec<u8> {
+    if carrier == 1 {
+        let mut v = vec![1, 0, 4, 1];
+        v.extend_from_slice(&[0, 1, 1, 1, 2, b'A']); // Name INDEX
+        v.extend_from_slice(&[0, 1, 1, 1, 7, 0x1D, 0, 0, 0, 25, 0x11]); // Top DICT INDEX: CharStrings at 25
+        v.extend_from_slice(&[0, 0]); // String INDEX
+        v.extend_from_slice(&[0, 0]); // Global Subr INDEX
+        debug_assert_eq!(v.len(), 25);
+        v
+    } else {
+        let mut v = vec![2, 0, 5, 0, 6];
+        v.extend_from_slice(&[0x1D, 0, 0, 0, 15, 0x11]); // Top DICT: CharStrings at 15
+        v.extend_from_slice(&[0, 0, 0, 0]); // Global Subr INDEX (count u32 = 0)
+        v
+    }
+}
+
+pub fn cff_max_size(off_size: u8) -> usize {
+    // offsets carry a bias of 1
+    (1usize << (8 * off_size as usize)) - 2
+}
+
+pub fn cff_table_bytes(carrier: u8, glyphs: &[Vec<u8>], off_size: u8) -> Vec<u8> {
+    let mut v = cff_prefix(carrier);
+    if carrier == 1 {
+        v.extend_from_slice(&(glyphs.len() as u16).to_be_bytes());
+    } else {
+        v.extend_from_slice(&(glyphs.len() as u32).to_be_bytes());
+    }
+    v.push(off_size);
+    let mut off = 1usize;
+    let push = |v: &mut Vec<u8>, o: usize| v.extend_from_slice(&(o as u32).to_be_bytes()[4 - off_size as usize..]);
+    for g in glyphs {
+        push(&mut v, off);
+        off += g.len();
+    }
+    push(&mut v, off);
+    for g in glyphs {
+        v.extend_from_slice(g);
+    }
+    v
 }
 
 pub fn opaque_bytes(seed: u64, len: u32) -> Vec<u8> {
@@ -159,6 +212,14 @@ pub fn opaque_bytes(seed: u64, len: u32) -> Vec<u8> {
 impl World {
     pub fn cp_of(&self, gid: u32) -> u32 {
         0x100 + gid
+    }
+
+    pub fn outline_tag(&self) -> Tag4 {
+        match self.carrier {
+            1 => CFF,
+            2 => CFF2,
+            _ => GLYF,
+        }
     }
 
     /// Data of glyph `gid` in `table` in the complete font (alt != 0: a disagreeing variant).
@@ -215,6 +276,8 @@ pub struct ModelFont {
     pub gvar: Option<Vec<Vec<u8>>>,
     pub gvar_long: bool,
     pub other: BTreeMap<Tag4, Vec<u8>>,
+    /// offSize of the charstrings INDEX (CFF carriers; 0 otherwise)
+    pub cff_off_size: u8,
 }
 
 #[derive(Clone, Debug, PartialEq, Eq, PartialOrd, Ord)]
@@ -234,7 +297,7 @@ impl World {
         let mut glyf = vec![Vec::new(); self.n_glyphs as usize];
         let mut gvar = if self.has_gvar { Some(vec![Vec::new(); self.n_glyphs as usize]) } else { None };
         for g in &self.base_gids {
-            glyf[*g as usize] = pad_even_if(&self.glyph_data(&GLYF, *g, 0), !self.loca_long);
+            glyf[*g as usize] = pad_even_if(&self.glyph_data(&self.outline_tag(), *g, 0), self.carrier == 0 && !self.loca_long);
             if let Some(gv) = gvar.as_mut() {
                 gv[*g as usize] = pad_even_if(&self.glyph_data(&GVAR, *g, 0), !self.gvar_long);
             }
@@ -249,6 +312,7 @@ impl World {
             gvar,
             gvar_long: self.gvar_long,
             other,
+            cff_off_size: if self.carrier == 0 { 0 } else { self.cff_off_size0 },
         }
     }
 
@@ -482,6 +546,10 @@ impl World {
             let ms = m.maps[c.slot].as_ref().ok_or("no map")?;
             let v = &self.versions[ms.version];
             let Patch::Glyph { gids, tables, alt, .. } = &self.patches[v.entries[c.entry].patch] else { return Err("not a glyph patch".into()) };
+            if self.carrier != 0 && m.maps[0].is_none() && tables.contains(&self.outline_tag()) {
+                // the client takes the charstrings offset from the 'IFT ' table only (calibrated)
+                return Err("CFF charstrings offset is read from the IFT table, which this font no longer has".into());
+            }
             for t in tables {
                 for g in gids {
                     if *g >= self.n_glyphs {
@@ -497,7 +565,7 @@ impl World {
             n.maps[c.slot].as_mut().unwrap().applied.insert(c.entry);
         }
         for ((t, g), ds) in &alts {
-            if *t == GLYF {
+            if *t == self.outline_tag() {
                 n.glyf[*g as usize] = ds[0].clone();
             } else if *t == GVAR {
                 if let Some(gv) = n.gvar.as_mut() {
@@ -548,8 +616,8 @@ impl World {
                 glyph_entries: v.f1_glyph_entries.clone(),
                 features,
                 applied: applied.iter().map(|i| *i as u16 + 1).collect(),
-                cff_offset: None,
-                cff2_offset: None,
+                cff_offset: if self.carrier == 1 { Some(cff_prefix(1).len() as u32) } else { None },
+                cff2_offset: if self.carrier == 2 { Some(cff_prefix(2).len() as u32) } else { None },
             };
             return encode::format1_table(&enc).0;
         }
@@ -586,7 +654,7 @@ impl World {
                 ignored: e.ignored || applied.contains(&i),
             });
         }
-        let enc = Format2Enc { compat: v.compat, default_format: v.default_format, template: v.template.clone(), entries, string_ids: v.string_ids, cff_offset: None, cff2_offset: None };
+        let enc = Format2Enc { compat: v.compat, default_format: v.default_format, template: v.template.clone(), entries, string_ids: v.string_ids, cff_offset: if self.carrier == 1 { Some(cff_prefix(1).len() as u32) } else { None }, cff2_offset: if self.carrier == 2 { Some(cff_prefix(2).len() as u32) } else { None } };
         encode::format2_table(&enc).0
     }
 
@@ -692,9 +760,13 @@ pub fn realise(w: &World, m: &ModelFont) -> Vec<u8> {
     let maps: Vec<(char, GlyphId)> = (1..w.n_glyphs).filter_map(|g| char::from_u32(w.cp_of(g)).map(|c| (c, GlyphId::new(g)))).collect();
     let cmap = write_fonts::tables::cmap::Cmap::from_mappings(maps).expect("cmap");
     b.add_table(&cmap).expect("cmap");
-    let (loca, glyf) = loca_glyf_bytes(&m.glyf, w.loca_long);
-    b.add_raw(Tag::new(&LOCA), loca);
-    b.add_raw(Tag::new(&GLYF), glyf);
+    if w.carrier == 0 {
+        let (loca, glyf) = loca_glyf_bytes(&m.glyf, w.loca_long);
+        b.add_raw(Tag::new(&LOCA), loca);
+        b.add_raw(Tag::new(&GLYF), glyf);
+    } else {
+        b.add_raw(Tag::new(&w.outline_tag()), cff_table_bytes(w.carrier, &m.glyf, m.cff_off_size));
+    }
     if let Some(gv) = &m.gvar {
         b.add_raw(Tag::new(&GVAR), gvar_bytes(gv, m.gvar_long));
     }
@@ -1073,7 +1145,13 @@ impl Gen<'_> {
 pub fn gen_world(rng: &mut Rng) -> World {
     let n_glyphs = 4 + rng.below(45) as u32;
     let loca_long = rng.chance(1, 2);
-    let has_gvar = rng.chance(1, 2);
+    let carrier = match rng.below(8) {
+        0 | 1 => 1u8,
+        2 => 2,
+        _ => 0,
+    };
+    let off_size_pick = *rng.pick(&[1u8, 1, 1, 2, 3, 4]);
+    let has_gvar = carrier == 0 && rng.chance(1, 2);
     let gvar_long = rng.chance(1, 3);
     let mut base_gids: Vec<u32> = vec![0];
     for g in 1..n_glyphs {
@@ -1090,7 +1168,21 @@ pub fn gen_world(rng: &mut Rng) -> World {
     let r0 = g.version(0, 0, has_gvar, two);
     let r1 = if two { Some(g.version(0, 1, has_gvar, true)) } else { None };
     let (versions, patches) = (g.versions, g.patches);
-    let mut w = World { n_glyphs, loca_long, has_gvar, gvar_long, data_seed, base_gids, big_gids, opaque, versions, roots: [Some(r0), r1], patches };
+    let mut w = World { n_glyphs, loca_long, has_gvar, gvar_long, data_seed, base_gids, big_gids, opaque, versions, roots: [Some(r0), r1], patches, carrier, cff_off_size0: 1 };
+    if w.carrier != 0 {
+        let tag = w.outline_tag();
+        for p in w.patches.iter_mut() {
+            if let Patch::Glyph { tables, .. } = p {
+                *tables = vec![tag];
+            }
+        }
+        let total: usize = w.base_gids.iter().map(|g| w.glyph_data(&tag, *g, 0).len()).sum();
+        let mut need = 1u8;
+        while cff_max_size(need) < total {
+            need += 1;
+        }
+        w.cff_off_size0 = need.max(off_size_pick);
+    }
     // the base font itself must be well formed: short offsets only if the base data fits them
     let base_total = |w: &World, t: &Tag4| -> usize { w.base_gids.iter().map(|g| { let l = w.glyph_data(t, *g, 0).len(); l + l % 2 }).sum() };
     if !w.loca_long && base_total(&w, &GLYF) > 0xFFFF * 2 {
